@@ -44,16 +44,19 @@ TEXT = {
  "C12": ("proof", "Theorems (Props/C12programs.v, C12.v; model level): for whole programs, a variant obtained by replacing operands by clones, starting the pass from a clone of the result, reading gradients through clones, and dropping handles the program no longer names (re-binding) produces the same observations at every matched instruction (C12_variant_observations, by simulation over every instruction except Vec::from, which legitimately depends on the number of owners); single-step lemmas: Clone pushes the same (node, flags) handle, gradient reads/clears depend only on the node, Drop only empties its slot. That Rust's Clone shares every cell and copies both flags is what the correspondence establishes: random programs (half of them with handles whose tracking and keep flags were driven apart) against three variants each, corgi vs corgi bitwise, plus the white-box probe.", "6 C12"),
  "C13": ("proof", "Theorems (Props/C13.v, any scalar type): gd_update on any parameter list, shapes and frozen subset re-binds each unfrozen parameter to a fresh "
          "tracked node with values x - lr*g of its own gradient and no gradient, leaves frozen ones and all other nodes untouched; closed form; refuted "
-         "without the gradient-length hypothesis (why C03 matters). Correspondence: 1-5 parameters, all gradient subsets, repeated updates; also checked "
+         "without the gradient-length hypothesis (why C03 matters); 'frozen' is decided as corgi decides it, while walking the list (frozen_flags), so "
+         "lists with several handles of one node (tied weights) are covered with no distinctness hypothesis: the first handle is stepped, later ones are "
+         "returned untouched, the flat buffers never shift (C13_tied_parameters, C13_frozen_rule). Correspondence: 1-5 parameters, all gradient subsets, "
+         "repeated updates, tied parameters (a clone anywhere in the list), parameters switched off between backward and update; also checked "
          "against x - lr*g computed independently (bitwise).", "6 C13"),
- "C14": ("proof", "Theorems (Props/C14exact.v, C14.v): END TO END - from a `ready` state reached by any program history (parameters are distinct tracked leaves without gradient; the store may still hold earlier iterations), one forward/backward/update round returns the summed cost of the current parameters on the current batch and, for every tangent direction tau on the parameters, sum_p <theta_p - theta'_p, tau_p> = lr * <ones, dual-number tangent of the cost along tau>: theta' = theta - lr * exact gradient (C14_train_step_exact; over the reals with no scalar hypothesis: ..._reals); the state is `ready` again, so by induction every iteration of any run does this (no leak between iterations; doubled backward = both tables). Dense and conv layers, all activations, both costs; side condition: batch shapes the layers accept. Correspondence: random models with batch shapes varying between iterations, 1-4 iterations; each parameter change also compared with -lr times a central-difference gradient of an independent Python reference loss at the observed parameters.", "6 C14"),
+ "C14": ("proof", "Theorems (Props/C14exact.v, C14.v): END TO END - from a `ready` state reached by any program history (parameters are distinct tracked leaves without gradient; the store may still hold earlier iterations), one forward/backward/update round returns the summed cost of the current parameters on the current batch and, for every tangent direction tau on the parameters, sum_p <theta_p - theta'_p, tau_p> = lr * <ones, dual-number tangent of the cost along tau>: theta' = theta - lr * exact gradient (C14_train_step_exact; over the reals with no scalar hypothesis: ..._reals); the state is `ready` again, so by induction every iteration of any run does this (no leak between iterations; doubled backward = both tables); leaf construction, reads, clones, drops and validation forwards BETWEEN backward and update change nothing the update depends on (C14_interleaved_update). Dense and conv layers, all activations, both costs; side condition: batch shapes the layers accept. Correspondence: random models with batch shapes varying between iterations, 1-4 iterations; each parameter change also compared with -lr times a central-difference gradient of an independent Python reference loss at the observed parameters.", "6 C14"),
  "C15": ("proof", "Theorems (Props/C15.v): the dense layer value (x W^T + b, batched or single vector) and conv layer value, model_forward as the fold of the layers, "
          "the mse and cross-entropy element formulas and model_backward = sum of the cost array, from C04-C07. Correspondence: random models; forward values "
          "and loss also compared with a pure-Python evaluation of the documented formulas on the parameters corgi reports.", "6 C15"),
  "C16": ("proof", 'Theorems (Props/C16.v, C16nested.v, any scalar type): constructors succeed exactly on valid input with exactly the given dims and row-major values; nested construction of ANY depth (rose trees) builds exactly the nested dimensions iff the nesting is regular, and indexing follows the path; full in-range multi-index = row-major element, flat index, equality reads dims and values only. Correspondence: exhaustive shapes rank<=4 dims<=3 plus ranks 5-6, all indices, refusal stream, arr! literals, equality between clones and reshaped views sharing one buffer.', "6 C16"),
  "C17": ("proof", "Theorems (Props/C17.v abstract; Props/C17concrete.v): every built-in derivative closure, flatten_to and the accumulation commute with alpha*x+beta*y (BDiv under the named law that scalar division is linear in the numerator), hence the adjoint table and every leaf gradient of the real engine are linear in the seed; backward(None) is definitionally backward(ones). Correspondence: five fresh instances per random program (s1, s2, combination, none, ones); the relation is evaluated on corgi's gradients alone.", "6 C17"),
  "C18": ("proof", "Theorems (Props/C18.v, C18loop.v; reachability model of Rc): holders form a DAG; the ownership count ignores gradient/delta/count cells (stored gradients never keep a graph alive) and is unchanged by passes; a leaf that is the only root is sole owner; fresh buffers never alias except through reshape; in the training loop the target is released as soon as backward returns and the batch after the next forward, at every iteration, for any layer stack (C18_every_batch_released). PARTIAL BY NATURE: what Rc and the allocator actually free is not in the model; the model's count is compared with Rc::strong_count through the white-box probe on every history. Correspondence: random graphs, passes, fetched gradients, all derived handles dropped, Vec::from on every leaf (must succeed); model loop: previous input released after the next forward.", "6 C18"),
- "C19": ("proof", "Theorems (Props/C19.v): for ANY two scalar instances every forward operation, every derivative closure, the engine and every instruction of every program give the same dimensions, panic on exactly the same inputs and produce the same tracking flags and observation structure (run_rel, run_cast) - shapes, tracking and acceptance never depend on the float width.  Props/C19rounding.v (Flocq; axioms: Coq's Reals axioms + classic): for the model instantiated with round-to-nearest binary32 / binary64 arithmetic, the classical forward error bounds hold in corgi's own summation order - one rounding per element-wise operation, gamma_(n-1)*sum|terms| for sum(k), gamma_(n+1)*(|c|+sum|a_k b_k|)+underflow for every matmul and convolution element - and binary32 and binary64 results on the same data differ by at most the sum of the two bounds (C19_matmul_f32_vs_f64): 'within single-precision rounding of the terms involved'. NOT PROVED: error bounds for compositions (softmax, whole forward passes, gradients), overflow/NaN behaviour, the real libm; these are VALIDATED (a test) by re-running samples of the C01-C07 programs against the --features f32 build with a scaled tolerance.", "6 C19"),
+ "C19": ("proof", "Theorems (Props/C19.v): for ANY two scalar instances every forward operation, every derivative closure, the engine and every instruction of every program give the same dimensions, panic on exactly the same inputs and produce the same tracking flags and observation structure (run_rel, run_cast) - shapes, tracking and acceptance never depend on the float width.  Props/C19rounding.v (Flocq; axioms: Coq's Reals axioms + classic): for the model instantiated with round-to-nearest binary32 / binary64 arithmetic, the classical forward error bounds hold in corgi's own summation order - one rounding per element-wise operation, gamma_(n-1)*sum|terms| for sum(k), gamma_(n+1)*(|c|+sum|a_k b_k|)+underflow for every matmul and convolution element - and binary32 and binary64 results on the same data differ by at most the sum of the two bounds (C19_matmul_f32_vs_f64): 'within single-precision rounding of the terms involved'. Compositions proved (Proofs/RoundingCompose.v): a dense layer's pre-activation, the mean-squared-error cost in corgi's literal order, softmax rows for an exp of stated relative accuracy (C19_dense_layer_error, C19_mse_error, C19_softmax_error, and their binary32-vs-binary64 forms). NOT PROVED: multi-layer forward passes and gradients, overflow/NaN behaviour, the real libm; these are VALIDATED (a test) by re-running samples of the C01-C07 programs against the --features f32 build with a scaled tolerance, and programs on tiny magnitudes with a tolerance relative to each value.", "6 C19"),
 }
 
 PENDING = "the Coq theorem file for this property is not yet registered in this commit (model and generator exist); it will be claimed in a later commit"
